@@ -89,7 +89,7 @@ class Gen:
         K = self.kind
         if op == 'map':
             u = self._pick_up(lambda k: k != 'dict')
-            f = r.choice(list(F.MAPS))
+            f = r.choice(F.STD_MAPS)
             mk = F.MAP_KIND[f]
             kind = K[u] if mk == 'same' else (('tup', mk[1] or 0) if isinstance(mk, tuple) else mk)
             if f == 'addk':
@@ -105,7 +105,7 @@ class Gen:
             return self._new('starmap', [u], kind, f=f, args=args)
         if op == 'filter':
             u = self._pick_up(lambda k: k != 'opaque')
-            pr = r.choice(list(F.PREDS))
+            pr = r.choice(F.STD_PREDS)
             if pr == 'gtk':
                 return self._new('filter', [u], K[u], p=pr, args=[r.randrange(3)], kwargs={'strict': r.random() < 0.5})
             if pr != 'none' and r.random() < 0.2:
@@ -113,7 +113,7 @@ class Gen:
             return self._new('filter', [u], K[u], p=pr)
         if op == 'accumulate':
             u = self._pick_up()
-            f = r.choice(list(F.ACCS))
+            f = r.choice(F.STD_ACCS)
             params = {'f': f}
             has_start = r.random() < 0.5 or F.ACCS[f][1]
             if has_start:
@@ -494,3 +494,139 @@ def build_node(spec, S, calls, fn_wrap=None, source_kwargs=None):
         else:
             raise ValueError(op)
     return n
+
+
+# ---------------------------------------------------------------------------
+# "exotic value" programs: the same node catalogue over None, falsy, string and nested-tuple elements
+# ---------------------------------------------------------------------------
+
+EXOTIC = [None, None, 0, '', False, 0.0, 1, 'a', [], [None], [0, None], [None, 1, 2], [1, None], ['', 0], [[], None]]
+
+
+class XGen:
+    """Small DAG programs whose user functions are total on every Python value, fed with None / 0 / '' / () / False /
+    0.0 / strings / tuples that start with, contain or consist of such values.  Element kinds: 'x' anything (hashable),
+    'xt' a tuple of at least one such element."""
+    OPS = ['map', 'map', 'filter', 'filter', 'accumulate', 'slice', 'partition', 'partition_unique', 'sliding_window',
+           'unique', 'flatten', 'flatten', 'pluck', 'starmap', 'union', 'zip', 'combine_latest', 'zip_latest']
+
+    def __init__(self, rng, max_nodes=7):
+        self.r = rng
+        self.max_nodes = max_nodes
+
+    def _new(self, op, ups, vkind, **params):
+        nid = 'n%d' % len(self.nodes)
+        spec = {'id': nid, 'op': op, 'ups': list(ups)}
+        spec.update(params)
+        self.nodes.append(spec)
+        self.kind[nid] = vkind
+        return nid
+
+    def _multi_cands(self):
+        return [n['id'] for n in self.nodes if n['op'] != 'sink']
+
+    def _pick(self, kind=None):
+        c = [n['id'] for n in self.nodes if n['op'] != 'sink' and (kind is None or self.kind[n['id']] == kind)]
+        if not c:
+            return None
+        r = self.r
+        return c[-1 - min(len(c) - 1, int(r.expovariate(1.2)))] if r.random() < 0.6 else r.choice(c)
+
+    def _add(self, op):
+        r, K = self.r, self.kind
+        if op == 'map':
+            u = self._pick()
+            f = r.choice(['ident', 'wrap', 'x_pair', 'x_nonefirst', 'x_totuple'])
+            return self._new('map', [u], K[u] if f == 'ident' else 'xt', f=f)
+        if op == 'filter':
+            u = self._pick()
+            pr = r.choice(['none', 'none', 'x_isnone', 'x_notnone'])
+            return self._new('filter', [u], K[u], p=pr, negate=pr != 'none' and r.random() < 0.3)      # remove(None) is not an API use
+        if op == 'accumulate':
+            u = self._pick()
+            f = r.choice(['x_last', 'x_last', 'x_last_rs'])
+            params = {'f': f}
+            if f == 'x_last_rs' or r.random() < 0.5:
+                params['start'] = r.choice([None, 0, '', [], False])        # explicit falsy start values
+                if params['start'] == []:
+                    params['start'] = ()
+            if r.random() < 0.4:
+                params['with_state'] = True
+            kind = 'xt' if params.get('with_state') or f == 'x_last_rs' else ('x' if K[u] == 'x' else 'x')
+            return self._new('accumulate', [u], kind, **params)
+        if op == 'slice':
+            u = self._pick()
+            return self._new('slice', [u], K[u], start=r.choice([None, 0, 1, 2]), end=r.choice([None, None, 1, 3, 6]),
+                             step=r.choice([None, 1, 2]))
+        if op == 'partition':
+            u = self._pick()
+            return self._new('partition', [u], 'xt', n=r.choice([1, 2, 2, 3]), key=r.choice([None, None, 'x_type', 'x_isnone']))
+        if op == 'partition_unique':
+            u = self._pick()
+            return self._new('partition_unique', [u], 'xt', n=r.choice([1, 2, 2, 3]), key=r.choice(['ident', 'x_type', 'x_repr']),
+                             keep=r.choice(['first', 'last']))
+        if op == 'sliding_window':
+            u = self._pick()
+            return self._new('sliding_window', [u], 'xt', n=r.choice([1, 2, 3]), partial=r.random() < 0.5)
+        if op == 'unique':
+            u = self._pick()
+            return self._new('unique', [u], K[u], maxsize=r.choice([None, None, 1, 2]), key=r.choice(['ident', 'ident', 'x_type', 'x_repr']),
+                             hashable=r.random() < 0.7)
+        if op == 'flatten':
+            u = self._pick('xt')
+            if u is None:
+                return None
+            return self._new('flatten', [u], 'x')
+        if op == 'pluck':
+            u = self._pick('xt')
+            if u is None:
+                return None
+            if r.random() < 0.4:
+                return self._new('pluck', [u], 'xt', pick=[0, 0])
+            return self._new('pluck', [u], 'x', pick=0)
+        if op == 'starmap':
+            u = self._pick('xt')
+            if u is None:
+                return None
+            f = r.choice(['tup', 'first'])
+            return self._new('starmap', [u], 'xt' if f == 'tup' else 'x', f=f, args=[])
+        c = self._multi_cands()
+        k = min(len(c), r.choice([2, 2, 3]) if op != 'union' else r.choice([1, 2, 2, 3]))
+        if k < 1:
+            return None
+        if k < 2 and op in ('combine_latest', 'zip_latest'):
+            return None
+        ups = r.sample(c, k)
+        if op == 'union':
+            kinds = {K[u] for u in ups}
+            return self._new('union', ups, K[ups[0]] if len(kinds) == 1 else 'x')
+        if op == 'zip':
+            lits = [[r.randrange(k + 1), r.choice([None, 0, ''])]] if r.random() < 0.4 else []
+            return self._new('zip', ups, 'xt', literals=lits)
+        if op == 'combine_latest':
+            eo = sorted(r.sample(range(k), r.randrange(1, k + 1))) if r.random() < 0.4 else None
+            return self._new('combine_latest', ups, 'xt', emit_on=eo, emit_on_form='index' if eo else None)
+        return self._new('zip_latest', ups, 'xt')
+
+    def program(self):
+        r = self.r
+        self.nodes, self.kind = [], {}
+        n_entries = r.choice([1, 1, 2])
+        for _ in range(n_entries):
+            self._new('source', [], 'x')
+        target = r.randrange(2, self.max_nodes + 1)
+        tries = 0
+        while len(self.nodes) < n_entries + target and tries < 60:
+            tries += 1
+            self._add(r.choice(self.OPS))
+        has_child = set(u for n in self.nodes for u in n['ups'])
+        for n in list(self.nodes):
+            if n['op'] != 'sink' and (n['id'] not in has_child or r.random() < 0.15):
+                self._new('sink', [n['id']], None)
+        return {'nodes': self.nodes, 'extra_edges': []}
+
+    def inputs(self, prog, max_len=20):
+        r = self.r
+        entries = [n['id'] for n in prog['nodes'] if n['op'] == 'source']
+        pool = r.choice([EXOTIC, EXOTIC, [None, 0, 1], [None, [None, 1], [1, None], 1]])
+        return [[r.choice(entries), r.choice(pool), r.choice([0, 1, 1, 2])] for _ in range(r.randrange(1, max_len + 1))]
